@@ -207,7 +207,7 @@ class Gen:
             self.loop += 1
             body = self.block(ind + 1, r.randint(1, 3))
             if r.random() < 0.3:
-                body.insert(r.randint(0, len(body)), "%s  if %s == 2 then %s end" % (p, i, "continue" if self.luau and r.random() < 0.6 else "break"))
+                body.insert(0, "%s  if %s == 2 then %s end" % (p, i, "continue" if self.luau and r.random() < 0.6 else "break"))
             self.loop -= 1
             self.scopes.pop()
             return out + body + [p + "end"]
